@@ -300,7 +300,7 @@ func (d *drv) doStore(c *tcase) {
 			return
 		}
 		// the authoritative content, as a fresh session sees it, must agree
-		if auxGot, err := d.auxFlagged(d.cur); err == nil && fmt.Sprint(auxGot) != fmt.Sprint(got) {
+		if auxGot, err := d.auxFlagged(d.cur); err == nil && fmt.Sprint(uniq(auxGot)) != fmt.Sprint(uniq(got)) {
 			d.report(c, "STORE", "session-db-disagree", fmt.Sprintf("session shows \\Flagged on %v, a fresh session on %v", got, auxGot))
 		}
 	}
